@@ -644,6 +644,9 @@ where
             let mut buf = PacketIdType::Buffer::default();
             buf.as_mut()
                 .copy_from_slice(&data_arc[cursor..cursor + buffer_size]);
+            if PacketIdType::from_buffer(buf.as_ref()).is_zero() {
+                return Err(MqttError::MalformedPacket);
+            }
             cursor += buffer_size;
             Some(buf)
         } else {
